@@ -82,6 +82,15 @@ def run(ctx, report):
                  {"accumulator": acc, "paths": len(paths), "offending_paths": bad[:4]}, "1")
     report.count("paths_checked", len(paths))
 
+    # clause 2 (a): the scan sees the captions still sitting in the implicit buffers: it runs after the
+    # final flush (source order within read(); both are unconditional statements of its body)
+    flush = [n for n in walk_no_nested(fn.node) if isinstance(n, ast.Call) and (call_name(n) or "").endswith("_flush_implicit_buffers")]
+    if not flush:
+        raise AnalysisError("SCCReader.read: final flush of the implicit buffers not found")
+    report.check(all(f.lineno < lp.lineno for f in flush), "R-ORDER", (fn, lp),
+                 "the length scan runs after the final flush (a last caption that is never explicitly ended is "
+                 "measured too)", {"flush_line": [f.lineno for f in flush], "scan_line": lp.lineno}, "2")
+
     # clause 2 ---------------------------------------------------------------
     stash_get_all = ctx.index.get_function(SPC, "CaptionCreator.get_all")
     report.covered(stash_get_all)
